@@ -404,7 +404,9 @@ impl World for HsWorld {
                 let addr_conn = self.connected.values().any(|s| s.addr == fx.addrs[*ai]);
                 let first_ok = self.token_first_addr.get(t).map(|x| x == ai).unwrap_or(true);
                 let acceptable = tok.valid && now_s < tok.spec.expire && !id_conn && !addr_conn && first_ok;
-                if tok.valid && now_s < tok.spec.expire && !id_conn && !addr_conn && !self.token_first_addr.contains_key(t) {
+                // a token counts as used from an address once the server has visibly acted on a request carrying it
+                // (challenge or denial); a request that got no answer may as well have been lost on the way
+                if tok.valid && now_s < tok.spec.expire && !id_conn && !addr_conn && !self.token_first_addr.contains_key(t) && r.reply().is_some() {
                     self.token_first_addr.insert(*t, *ai);
                 }
                 if let SR::Send { bytes, .. } = &r {
